@@ -11,8 +11,14 @@ import (
 )
 
 // Analyze builds and solves the model for the whole package.
-func Analyze(p *load.Program) *Analysis {
+func Analyze(p *load.Program) *Analysis { return AnalyzeWithout(p, nil) }
+
+// AnalyzeWithout solves the model with the bodies of the given functions
+// removed (they neither execute nor call anything): what remains reachable or
+// pointed-to does not depend on them.
+func AnalyzeWithout(p *load.Program, skip map[*ssa.Function]bool) *Analysis {
 	a := &Analysis{
+		skip:      skip,
 		P:         p,
 		valNode:   map[nodeKey]*Node{},
 		funcObj:   map[*ssa.Function]*Object{},
@@ -294,7 +300,7 @@ func (a *Analysis) genFunc(fn *ssa.Function) {
 		return
 	}
 	a.gen[fn] = true
-	if fn.Blocks == nil {
+	if fn.Blocks == nil || a.skip[fn] {
 		return
 	}
 	a.paramNodes(fn)
